@@ -256,6 +256,10 @@ func (r *Rng) evContent(typ string, safe bool) *JV {
 			c.put(key, r.GenValue(2, !safe))
 		}
 	}
+	// characters json.Marshal escapes and canonical JSON does not (and the other way round)
+	if r.Chance(40) && !c.has("esc") {
+		c.put("esc", jstr(Pick(r, []string{"<", ">", "&", "<a href=\"x\">&amp;</a>", "\u2028", "\u2029", "a/b", "\u007f", "é\u2028<", "\\u003c", "\u0001\u001f", "\U0001F600"})))
+	}
 	return c
 }
 
@@ -290,8 +294,10 @@ func (r *Rng) eventIDs(ver string, n int) []string {
 }
 
 // buildEvent runs EventBuilder.Build on a generated proto-event; nil when Build refuses it.
-func (r *Rng) buildEvent(o *Out, ver string) *built {
-	v := gmsl.MustGetRoomVersion(gmsl.RoomVersion(ver))
+func (r *Rng) buildEvent(o *Out, ver string) *built { return r.buildEventSized(o, ver, 0) }
+
+// buildEventSized: sizeTarget > 0 adds about that many bytes of padding to the content.
+func (r *Rng) buildEventSized(o *Out, ver string, sizeTarget int) *built {
 	_, v3 := verFormat(ver)
 	typ := Pick(r, evTypes)
 	sg := Pick(r, signers)
@@ -314,9 +320,34 @@ func (r *Rng) buildEvent(o *Out, ver string) *built {
 		pe.RoomID = ""
 	}
 	pe.PrevEvents = r.eventIDs(ver, r.Intn(5))
-	pe.AuthEvents = r.eventIDs(ver, r.Intn(5))
+	auth := r.eventIDs(ver, r.Intn(5))
+	if v3 && !isCreate && len(pe.RoomID) > 1 && r.Chance(35) {
+		// the create event listed by hand, not necessarily first
+		i := r.Intn(len(auth) + 1)
+		auth = append(auth[:i], append([]string{"$" + pe.RoomID[1:]}, auth[i:]...)...)
+		o.Count("build.auth-lists-create")
+	}
+	pe.AuthEvents = auth
 	pe.Depth = Pick(r, []int64{0, 1, 2, 17, 1 << 31, 9007199254740991, int64(r.Intn(1000))})
-	pe.Content = spec.RawJSON(r.RenderText(r.evContent(typ, true), Style{}))
+	pe.Content = spec.RawJSON(r.RenderText(r.evContent(typ, true), Style{Escape: Pick(r, []int{0, 0, 30})}))
+	if sizeTarget > 0 {
+		// pad the content so that the built event lands near the size limit
+		c := toMap(pe.Content)
+		parts := []string{}
+		for n := sizeTarget; n > 0; n -= 53 {
+			k := 50
+			if n < 53 {
+				k = n - 3
+				if k < 0 {
+					k = 0
+				}
+			}
+			parts = append(parts, strings.Repeat("p", k))
+		}
+		b, _ := json.Marshal(parts)
+		c["pad"] = b
+		pe.Content = spec.RawJSON(c.text())
+	}
 	if typ == "m.room.redaction" && r.Bool() {
 		pe.Redacts = r.eventIDs(ver, 1)[0]
 	}
@@ -324,15 +355,23 @@ func (r *Rng) buildEvent(o *Out, ver string) *built {
 		pe.Unsigned = spec.RawJSON(`{"age":` + fmt.Sprint(r.Intn(100000)) + `}`)
 	}
 	now := time.UnixMilli(int64(1600000000000 + r.Intn(1<<30)))
+	return runBuild(o, ver, pe, now, sg, int64(r.Intn(1<<30)))
+}
+
+// runBuild calls EventBuilder.Build on the proto-event, records the `build` op (Build against its
+// model) and returns the built event (nil when Build refuses).
+func runBuild(o *Out, ver string, pe gmsl.ProtoEvent, now time.Time, sg signer, randSeed int64) *built {
+	v := gmsl.MustGetRoomVersion(gmsl.RoomVersion(ver))
 	// the 16 random characters of a format-1 event ID come from math/rand's global source: seed it
-	randSeed := int64(r.Intn(1 << 30))
 	rand.Seed(randSeed)
 	rand16 := util.RandomString(16)
 	rand.Seed(randSeed)
 	eb := v.NewEventBuilderFromProtoEvent(&pe)
 	p, err := eb.Build(now, spec.ServerName(sg.name), sg.kid, sg.sk)
 	var res *built
-	sig := ""
+	// when Build refuses the event there is no signature to compute; what the model needs is its
+	// length (every ed25519 signature is 64 bytes = 86 base64 characters): the size check comes last
+	sig := strings.Repeat("A", 86)
 	if err != nil {
 		o.Count("build.refused")
 	} else {
@@ -548,6 +587,9 @@ var tamperings = []tampering{
 	{"strip.destinations", func(r *Rng, m pduMap) { m["destinations"] = json.RawMessage(`["hs2","hs3"]`) }},
 	{"strip.event_id", func(r *Rng, m pduMap) {
 		m["event_id"] = rawStr(Pick(r, []string{"$other:hs1", "$" + r.id43(), "", "x"}))
+	}},
+	{"strip.event_id-variant", func(r *Rng, m pduMap) {
+		m[Pick(r, []string{"Event_id", "EVENT_ID", "event_ID", "event_ıd"})] = rawStr(Pick(r, []string{"$other:hs1", "$" + r.id43(), "$" + r.id43(), "x"}))
 	}},
 	{"hash.corrupt", func(r *Rng, m pduMap) {
 		var h map[string]string
@@ -778,6 +820,46 @@ func genEvent(o *Out, tier string, r *Rng) {
 				_ = jv
 				emitParseAll(o, r, "restyled", ver, restyle(r, b.json), id)
 			}
+		}
+	}
+	// Build near the size limit: the signature and hash add ~200 bytes after the fields are fixed
+	nb := 6
+	if tier == "thorough" {
+		nb = 60
+	}
+	for i := 0; i < nb; i++ {
+		ver := Pick(r, allVersions)
+		b0 := r.buildEventSized(o, ver, 60000)
+		if b0 == nil {
+			continue
+		}
+		// same proto-event, padded so that the finished event lands at 65536 + delta bytes
+		delta := -260 + r.Intn(330)
+		extra := 65536 + delta - len(b0.json)
+		pe := b0.pe
+		c := toMap(pe.Content)
+		var parts []string
+		_ = json.Unmarshal(c["pad"], &parts)
+		for extra > 0 {
+			k := 50
+			if extra < 53 {
+				k = extra - 3
+				if k < 0 {
+					k = 0
+				}
+			}
+			parts = append(parts, strings.Repeat("q", k))
+			extra -= k + 3
+		}
+		pb, _ := json.Marshal(parts)
+		c["pad"] = pb
+		pe.Content = spec.RawJSON(c.text())
+		b := runBuild(o, ver, pe, b0.now, b0.sg, int64(r.Intn(1<<30)))
+		o.Count(fmt.Sprintf("build.near-limit.delta%+d", delta/50*50))
+		if b != nil {
+			emitParseAll(o, r, "near-limit", ver, b.json, b.pdu.EventID())
+			im := o.Do("roundtrip", ver, hx(b.json))
+			o.Count("near-limit.roundtrip." + im)
 		}
 	}
 	// hand-made events (no EventBuilder): unusual but well-formed shapes with a correct hash
